@@ -714,7 +714,9 @@ func sfStartedLater(g *callgraph.Graph, fn *ssa.Function, site ssa.CallInstructi
 			if before && blockReaches(gb, sb, true) {
 				before = false // in a loop: a later iteration follows the start
 			}
-		} else if sb.Dominates(gb) && !blockReaches(gb, sb, false) {
+		} else if !blockReaches(gb, sb, false) {
+			// the call can never run once the goroutine has been started (it may
+			// sit in a loop that precedes the go statement)
 			before = true
 		}
 		if !before {
